@@ -15,6 +15,7 @@
 package server
 
 import (
+	"fmt"
 	"github.com/cybergarage/go-redis/redis"
 )
 
@@ -38,8 +39,12 @@ func NewServer() *Server {
 func (server *Server) GetDatabase(id redis.DatabaseID) (*Database, error) {
 	db, ok := server.Databases.GetDatabase(id)
 	if !ok {
-		db = NewDatabaseWithID(id)
-		server.SetDatabase(db)
+		// Connections that use a database for the first time at the same moment must all get the same one.
+		v, _ := server.Databases.LoadOrStore(id, NewDatabaseWithID(id))
+		db, ok = v.(*Database)
+		if !ok {
+			return nil, fmt.Errorf("%w: database %d", ErrNotFound, id)
+		}
 	}
 	return db, nil
 }
